@@ -58,7 +58,9 @@ def batmsg(cid, kind, now):
     kw = {}
     ts = now
     if kind == "stale":
-        ts = now - timedelta(seconds=MAXAGE + 1)
+        # more than a day old, with a seconds-of-day part below the maximum age (the inverter's stale message is
+        # MAXAGE + 1 s old)
+        ts = now - timedelta(days=1, seconds=1)
     elif kind == "bad-state":
         kw["state"] = BatteryComponentState.ERROR
     elif kind == "relay-open":
@@ -532,7 +534,8 @@ def run(tier: str, seed: int, workers: int):
         "from the cold start to depth 10 (quick) / 13 (thorough) with states merged on (validity flags, reception and message ages, "
         "blocking deadline relative to now, last blocking duration, last status) read from the reference AND the real tracker",
         "assumptions": [
-            "max_data_age 5 s, blocking 1 s doubling to the cap of 4 s; fresh messages are stamped 'now' (message age = reception age)",
+            "max_data_age 5 s, blocking 1 s doubling to the cap of 4 s; fresh messages are stamped 'now' (message age = reception age); "
+            "a stale battery message is 1 day + 1 s old, a stale inverter message 6 s",
             "wall clock bound to the virtual clock with time_machine",
             "no state merging: every history is executed from a fresh tracker",
         ],
